@@ -5,6 +5,7 @@ reused engine, interleaved with metadata queries/updates and resets) is compared
 the same conversion done as the FIRST thing in a fresh process.  The caller's source is snapshotted
 around every call by the worker.
 """
+import re
 from lib import core, gen, gendoc, drv as D
 
 ID = 'C05'
@@ -342,6 +343,72 @@ def work_outline_engine(job):
     return r
 
 
+EXPORT_FMTS = [0, 2, 3, 4, 5, 9, 11]
+
+
+def export_cause(src, ref, out, i):
+    """what differs between an export and the same export done first (stable key part)"""
+    ctx = ref[max(0, i - 80):i + 30] + b' ' + out[max(0, i - 80):i + 30]
+    if re.search(rb'width|height', ctx):
+        return 'image-dimension'
+    if re.search(rb'<h\d|</h\d>|\\(part|chapter|section|subsection|subsubsection|paragraph|subparagraph|frametitle)\b|<outline|text:h |^#+ |<li><a href="#|</a></li>', ctx, re.M):
+        # some writers trim the blanks / line break at the end of a heading *in the tree* (header_clean_trailing_whitespace), others read them
+        return 'heading-text'
+    if re.search(rb'<abbr|\\ac\{|\\gls\{|\\acrshort|\\acrfull', ctx) and b'[>' in src:
+        # the search for abbreviations splits text tokens in the tree; the next export searches the already split tokens
+        return 'abbreviation-search'
+    if re.search(rb'\[[>?]\(', src) and (ref[i:i + 1] in (b'>', b'?') or out[i:i + 1] in (b'>', b'?')):
+        # the content tokens of an inline abbreviation / glossary entry are re-parented by the first export (recorded for C15 as well)
+        return 'inline-note-content'
+    return None
+
+
+def work_exports(job):
+    """one parsed tree exported in format A and then in format B (mmd_engine_parse_string once, mmd_engine_export_token_tree twice): the second export
+    must be what a fresh process gives when it parses the same text and exports it in format B first"""
+    seed, lo, hi = job
+    r = core.JobResult()
+    with core.Session(r) as s:
+        for i in range(lo, hi):
+            rng = core.job_rng(seed, ID, 'exports', i)
+            docs = pool(core.job_rng(seed, ID, 'pool', i % 7))
+            src = docs[rng.randrange(len(docs))]
+            if len(src) > 30000:
+                continue
+            _, ext, lang = rand_opts(rng)
+            fa, fb = rng.sample(EXPORT_FMTS, 2)
+            outs = {}
+            for tag, seq in (('after', (fa, fb)), ('first', (fb,))):
+                s.driver('asan').restart()
+                hist = [D.req_to_json('asan', 'ENGINE', 0, ext, lang, 0 | (0 << 4), [src]), D.req_to_json('asan', 'ENGINE', 0, 0, 0, 0 | (12 << 4), [b''])]
+                ok = all(s.call('asan', *D.req_from_json(q), history=hist[:k], crash_is_violation=False) is not None for k, q in enumerate(hist))
+                rep = None
+                if ok:
+                    for f in seq:
+                        rq = D.req_to_json('asan', 'ENGINE', f, 0, 0, 0 | (14 << 4), [b''])
+                        hist.append(rq)
+                        rep = s.call('asan', *D.req_from_json(rq), history=hist[:-1], crash_is_violation=False)
+                        r.evaluations += 1
+                        if rep is None:
+                            break
+                outs[tag] = (rep.out if rep is not None and rep.status == 0 else None, list(hist))
+            a, b = outs['after'][0], outs['first'][0]
+            if a is None or b is None:
+                r.stats['export pair skipped (crash/exit: other properties)'] += 1
+                continue
+            r.stats['export_pairs_compared'] += 1
+            r.distinct.add(core.h64('exp', i, seed))
+            if a != b:
+                k = 0
+                while k < min(len(a), len(b)) and a[k] == b[k]:
+                    k += 1
+                cause = export_cause(src, b, a, k)
+                r.violate(('export-after-export:%s' % cause) if cause else 'export-after-export:%s:%s' % (D.FMT_NAME[fb], classify(src, b, a, k)),
+                          'the %s export of a parsed tree differs when a %s export of the same tree came first (byte %d)' % (D.FMT_NAME[fb], D.FMT_NAME[fa], k),
+                          dict(requests=outs['after'][1], fresh_requests=outs['first'][1]), 'first : %s\nafter : %s' % (core.show(b[max(0, k - 60):k + 60]), core.show(a[max(0, k - 60):k + 60])))
+    return r
+
+
 def main():
     chk = core.Check(ID)
     n = chk.scale(2000, 60000)
@@ -371,6 +438,8 @@ def main():
     chk.run_jobs(work, [(chk.seed, lo, min(n, lo + chunk), kmax) for lo in range(0, n, chunk)])
     ni = chk.scale(640, 12000)
     chk.run_jobs(work_import, [(chk.seed, lo, min(ni, lo + 20)) for lo in range(0, ni, 20)])
+    ne = chk.scale(800, 16000)
+    chk.run_jobs(work_exports, [(chk.seed, lo, min(ne, lo + 25)) for lo in range(0, ne, 25)])
     no = chk.scale(320, 6000)
     chk.run_jobs(work_outline_engine, [(chk.seed, lo, min(no, lo + 10)) for lo in range(0, no, 10)])
     return chk.finish()
